@@ -64,9 +64,12 @@ func envOr(k, d string) string {
 }
 
 type Baseline struct {
-	Property string              `json:"property"`
-	Names    []string            `json:"obligations"`
-	Counts   map[string]int      `json:"counts"` // fn#kind -> number of obligations
+	Property string         `json:"property"`
+	Names    []string       `json:"obligations"`
+	Counts   map[string]int `json:"counts"` // fn#kind -> number of obligations
+	// obligations that do not discharge on the unchanged tree: outside the claim, reported as
+	// "unproven", never as violations (unless a replay on the real code confirms a failure)
+	Unproven []string `json:"unproven_on_unchanged_tree,omitempty"`
 }
 
 type KnownFinding struct {
@@ -128,6 +131,13 @@ func runCheck(id, tier string, writeBaseline bool) int {
 		fspecs = append(fspecs, fsp)
 		pkgSet[pkgOfKey(fsp.Key, specs)] = true
 	}
+	var sweeps []*Sweep
+	for _, sw := range specs.Sweeps {
+		if hasProp(sw.Props, id) {
+			sweeps = append(sweeps, sw)
+			pkgSet[sw.Pkg] = true
+		}
+	}
 	var lemmas []*Lemma
 	for _, l := range specs.Lemmas {
 		if hasProp(l.Props, id) {
@@ -140,7 +150,7 @@ func runCheck(id, tier string, writeBaseline bool) int {
 			pkgSet[k[:strings.LastIndex(k, ".")]] = true
 		}
 	}
-	if len(fspecs) == 0 && len(lemmas) == 0 {
+	if len(fspecs) == 0 && len(lemmas) == 0 && len(sweeps) == 0 {
 		return failRun(id, tier, seed, t0, "no contracts carry property "+id)
 	}
 	var patterns []string
@@ -159,6 +169,19 @@ func runCheck(id, tier string, writeBaseline bool) int {
 	} else {
 		w = &World{specs: specs, modPath: modulePath, maxInline: 3}
 	}
+	for _, sw := range sweeps {
+		fspecs = append(fspecs, sweepSpecs(w, sw, specs)...)
+	}
+	if only := os.Getenv("GOVC_ONLY"); only != "" {
+		// developer aid: restrict to functions whose key contains the given substring (never used by registered commands)
+		var keep []*FuncSpec
+		for _, f := range fspecs {
+			if strings.Contains(f.Key, only) {
+				keep = append(keep, f)
+			}
+		}
+		fspecs = keep
+	}
 	loadS := time.Since(t0).Seconds()
 
 	// generate obligations, functions in parallel
@@ -171,7 +194,11 @@ func runCheck(id, tier string, writeBaseline bool) int {
 			defer wg.Done()
 			sem <- struct{}{}
 			defer func() { <-sem }()
+			tg := time.Now()
 			results[i] = VerifyFunc(w, fsp, id, false)
+			if os.Getenv("GOVC_PROGRESS") != "" {
+				fmt.Fprintf(os.Stderr, "gen %-70s %6.1fs obls=%d inferq=%d\n", fsp.Key[len(modulePath):], time.Since(tg).Seconds(), len(results[i].Obls), results[i].InferQueries)
+			}
 		}(i, fsp)
 	}
 	for i, l := range lemmas {
@@ -203,6 +230,41 @@ func runCheck(id, tier string, writeBaseline bool) int {
 		cfg.TwoAgree = true
 	}
 	os.RemoveAll(cfg.OutDir)
+	if writeBaseline {
+		cfg.SweepRlimit = 4000000 // admit to the baseline only what discharges with a quarter of the budget
+	}
+	cfg.Par = 14
+	// sweep obligations that arise inside an inlined callee which is itself swept: if the callee's own
+	// (context-free) obligation discharges, the one in context holds a fortiori
+	var deferred []*Obligation
+	standalone := map[string][]*Obligation{}
+	for _, o := range obls {
+		if !o.Sweep {
+			continue
+		}
+		if o.InlinedFn != "" {
+			deferred = append(deferred, o)
+			o.Status = "deferred"
+		} else {
+			standalone[o.Fn+"#"+o.BaseWhat] = append(standalone[o.Fn+"#"+o.BaseWhat], o)
+		}
+	}
+	solveAll(obls, cfg)
+	for _, o := range deferred {
+		o.Status = ""
+		ss := standalone[o.InlinedFn+"#"+o.BaseWhat]
+		all := len(ss) > 0
+		for _, s := range ss {
+			if s.Status != "discharged" {
+				all = false
+			}
+		}
+		if all {
+			o.Status = "discharged"
+			o.Solver = "callee-proof"
+			o.Note = "holds for every input of " + o.InlinedFn + " (its own sweep obligation discharged)"
+		}
+	}
 	solveAll(obls, cfg)
 
 	// baseline
@@ -220,9 +282,12 @@ func runCheck(id, tier string, writeBaseline bool) int {
 		for _, o := range obls {
 			if o.Status == "discharged" {
 				nb.Names = append(nb.Names, o.Name)
+			} else if os.Getenv("VERIF_BASELINE_ALLOW_UNPROVEN") != "" {
+				nb.Unproven = append(nb.Unproven, o.Name)
 			}
 		}
 		sort.Strings(nb.Names)
+		sort.Strings(nb.Unproven)
 		os.MkdirAll(filepath.Dir(basePath), 0o755)
 		b, _ := json.MarshalIndent(nb, "", " ")
 		os.WriteFile(basePath, append(b, '\n'), 0o644)
@@ -232,6 +297,11 @@ func runCheck(id, tier string, writeBaseline bool) int {
 	for _, n := range base.Names {
 		inBase[n] = true
 	}
+	unprovenBase := map[string]bool{}
+	for _, n := range base.Unproven {
+		unprovenBase[n] = true
+	}
+	var unproven []string
 	known := loadKnown()
 
 	// verdicts
@@ -240,6 +310,44 @@ func runCheck(id, tier string, writeBaseline bool) int {
 	seen := map[string]bool{}
 	replayDir := filepath.Join(outDir(), "replays", id)
 	os.RemoveAll(replayDir)
+	// replays run in parallel, at most 2 per function
+	replayed := map[*Obligation]replayResult{}
+	{
+		perFn := map[string]int{}
+		var todo []*Obligation
+		for _, o := range obls {
+			if o.Status == "discharged" || o.Status == "" {
+				continue
+			}
+			if panicKind(o.Kind) && perFn[o.Fn] >= 2 {
+				continue
+			}
+			perFn[o.Fn]++
+			todo = append(todo, o)
+		}
+		var mu sync.Mutex
+		var wg2 sync.WaitGroup
+		sem2 := make(chan struct{}, 8)
+		for _, o := range todo {
+			wg2.Add(1)
+			go func(o *Obligation) {
+				defer wg2.Done()
+				sem2 <- struct{}{}
+				defer func() { <-sem2 }()
+				r := tryReplay(w, o, replayDir)
+				mu.Lock()
+				replayed[o] = r
+				mu.Unlock()
+			}(o)
+		}
+		wg2.Wait()
+	}
+	getReplay := func(o *Obligation) replayResult {
+		if r, ok := replayed[o]; ok {
+			return r
+		}
+		return replayResult{false, writeReplayFileRF(replayDir, ReplayFile{Obligation: o.Name, Kind: o.Kind, Status: o.Status, Detail: truncate(o.Model, 2000), Note: "no replay attempted (per-function replay cap reached)"})}
+	}
 	for _, o := range obls {
 		seen[o.Name] = true
 		if o.Bounded {
@@ -261,8 +369,17 @@ func runCheck(id, tier string, writeBaseline bool) int {
 		if kf {
 			continue
 		}
+		if unprovenBase[o.Name] {
+			rp := getReplay(o)
+			if rp.confirmed {
+				violations = append(violations, fmt.Sprintf("VIOLATION property=%s replay=%s", id, rp.path))
+			} else {
+				unproven = append(unproven, o.Name)
+			}
+			continue
+		}
 		structural := inBase[o.Name] || (base.Counts != nil && base.Counts[o.Fn+"#"+o.Kind] == counts[o.Fn+"#"+o.Kind] && base.Counts[o.Fn+"#"+o.Kind] > 0) || o.Kind == "binding" || o.Kind == "engine" || len(base.Names) == 0
-		rp := tryReplay(w, o, replayDir)
+		rp := getReplay(o)
 		switch {
 		case rp.confirmed:
 			violations = append(violations, fmt.Sprintf("VIOLATION property=%s replay=%s", id, rp.path))
@@ -293,6 +410,7 @@ func runCheck(id, tier string, writeBaseline bool) int {
 	for _, l := range violations {
 		fmt.Println(l)
 	}
+	undecided = append(undecided, prefixAll("UNPROVEN (also on the unchanged tree; outside the claim): ", unproven)...)
 	writeEvidence(id, tier, seed, t0, results, obls, nDis, nBounded, len(violations), knownLines, undecided, loadS, genS, specs)
 	fmt.Printf("govc: property=%s tier=%s functions=%d obligations=%d discharged=%d violations=%d known=%d undecided=%d wall=%.1fs\n",
 		id, tier, len(fspecs), len(obls), nDis, len(violations), len(knownLines), len(undecided), time.Since(t0).Seconds())
@@ -300,6 +418,14 @@ func runCheck(id, tier string, writeBaseline bool) int {
 		return 1
 	}
 	return 0
+}
+
+func prefixAll(p string, xs []string) []string {
+	out := make([]string, len(xs))
+	for i, x := range xs {
+		out[i] = p + x
+	}
+	return out
 }
 
 func kindOfName(n string) string {
@@ -405,7 +531,13 @@ func writeEvidence(id, tier string, seed int, t0 time.Time, results []*FuncResul
 	}
 	sort.Strings(as)
 	level := checkLevel(id)
-	nonBounded := len(obls) - nBounded
+	nUnprovenBase := 0
+	for _, u := range undecided {
+		if strings.HasPrefix(u, "UNPROVEN") {
+			nUnprovenBase++
+		}
+	}
+	nonBounded := len(obls) - nBounded - nUnprovenBase
 	cov := map[string]interface{}{
 		"obligations":               nonBounded,
 		"discharged":                nDis,
